@@ -101,7 +101,7 @@ def exInst : Inst :=
     tasks := [⟨"T0@G0", "T0", 0, "G0", .released, 1, 9,
                [⟨1, 3, [("CPU", 1)]⟩, ⟨1, 5, [("CPU", 2)]⟩], 0, 0⟩]
     nOffered := 1
-    nodes := [⟨"T0@G0", "T0", 0, "G0"⟩]
+    nodes := [⟨"T0@G0", "T0", 0, "G0", .released⟩]
     edges := []
     enforceDeadlines := true, retract := false, releaseTaskgraphs := false, goalSlack := false
     allowed0 := [] }
